@@ -4,56 +4,35 @@
    getattr) are arbitrary; mangle is arbitrary; no bound on pattern depth or size. *)
 From HyV Require Import Ops.PyMatch Gen.MatchTables Ops.Pattern Ops.PatternProofs.
 
-(* Full statement: for every pattern of the sublanguage the emitted ast.pattern matches exactly the
-   subjects the reference semantics of the Hy pattern says, with the same bindings. *)
-Definition C08_pattern_correct_full : Prop :=
+(* 1. For every pattern of the sublanguage (induction on the pattern, any depth) the emitted ast.pattern
+      matches exactly the subjects the reference semantics of the Hy pattern says, with the same bindings
+      (names as Python sees them: captures, :as, #*, #**, dotted names and class keywords mangled). *)
+Theorem C08_pattern_correct :
   forall (mangle : string -> string) (value : Type) veval veq is_sing as_seq as_map of_list of_dict isinst margs getattr,
   forall h v,
     pmatch value veval veq is_sing as_seq as_map of_list of_dict isinst margs getattr (compile mangle h) v
     = hmatch mangle value veval veq is_sing as_seq as_map of_list of_dict isinst margs getattr h v.
-
-(* 1. Proved for every pattern (induction on the pattern, any depth) that contains none of: a string
-      literal "None"/"True"/"False"; #* _ ; a class-pattern keyword that mangling changes (unless the
-      regenerated compile_pattern mangles it). *)
-Theorem C08_pattern_correct_partial :
-  forall (mangle : string -> string) (value : Type) veval veq is_sing as_seq as_map of_list of_dict isinst margs getattr,
-  forall h, supported mangle h = true -> forall v,
-    pmatch value veval veq is_sing as_seq as_map of_list of_dict isinst margs getattr (compile mangle h) v
-    = hmatch mangle value veval veq is_sing as_seq as_map of_list of_dict isinst margs getattr h v.
-Proof. exact pattern_correct_partial. Qed.
-Print Assumptions C08_pattern_correct_partial.
+Proof. exact pattern_correct. Qed.
+Print Assumptions C08_pattern_correct.
 
 (* ... and the emitted node is one compile() accepts whenever the Hy pattern is well formed *)
 Theorem C08_compile_valid : forall (mangle : string -> string) h b,
-  supported mangle h = true -> hwf mangle b h = true -> valid b (compile mangle h) = true.
-Proof. exact compile_valid. Qed.
+  hwf mangle b h = true -> valid b (compile mangle h) = true.
+Proof. exact compile_valid_all. Qed.
 Print Assumptions C08_compile_valid.
 
-(* The full statement is false of the model; three witnesses, each replayed on the implementation by props/c08.py *)
-Theorem C08_pattern_correct_refuted : ~ C08_pattern_correct_full.
-Proof. exact pattern_correct_refuted. Qed.
-Print Assumptions C08_pattern_correct_refuted.
-
-Theorem C08_refuted_string_literal :
-  t_hm t_mangle (HLit (LStr "None")) (TStr "None") = MYes []
-  /\ t_pm (compile t_mangle (HLit (LStr "None"))) (TStr "None") = MErr
-  /\ valid false (compile t_mangle (HLit (LStr "None"))) = false.
-Proof. exact refuted_string_literal. Qed.
-Print Assumptions C08_refuted_string_literal.
-
-Theorem C08_refuted_star_wildcard :
-  t_hm t_mangle (HSeq [HSym "x"; HStar "_"]) (TList [TStr "a"; TStr "b"]) = MYes [("x", TStr "a")]
-  /\ t_pm (compile t_mangle (HSeq [HSym "x"; HStar "_"])) (TList [TStr "a"; TStr "b"])
-     = MYes [("x", TStr "a"); ("_", TList [TStr "b"])]
-  /\ valid false (compile t_mangle (HSeq [HSym "x"; HStar "_"])) = false.
-Proof. exact refuted_star_wildcard. Qed.
-Print Assumptions C08_refuted_star_wildcard.
-
-Theorem C08_refuted_class_keyword : kwd_attrs_mangled = false ->
-  t_hm t_mangle (HClass ["C"] [] ["a-b"] [HLit (LStr "v")]) (TObj [("a_b", TStr "v")]) = MYes []
-  /\ t_pm (compile t_mangle (HClass ["C"] [] ["a-b"] [HLit (LStr "v")])) (TObj [("a_b", TStr "v")]) = MNo.
-Proof. exact refuted_class_keyword. Qed.
-Print Assumptions C08_refuted_class_keyword.
+(* the three constructs that were miscompiled before commits 7ce654c, 05b9a7b, 24b6ab7 *)
+Example C08_example_string_literal :
+  t_pm (compile t_mangle (HLit (LStr "None"))) (TStr "None") = MYes []
+  /\ valid false (compile t_mangle (HLit (LStr "None"))) = true.
+Proof. exact example_string_literal. Qed.
+Example C08_example_star_wildcard :
+  t_pm (compile t_mangle (HSeq [HSym "x"; HStar "_"])) (TList [TStr "a"; TStr "b"]) = MYes [("x", TStr "a")]
+  /\ valid false (compile t_mangle (HSeq [HSym "x"; HStar "_"])) = true.
+Proof. exact example_star_wildcard. Qed.
+Example C08_example_class_keyword :
+  t_pm (compile t_mangle (HClass ["C"] [] ["a-b"] [HLit (LStr "v")])) (TObj [("a_b", TStr "v")]) = MYes [].
+Proof. exact example_class_keyword. Qed.
 
 (* 2. The match form: the value of the result form of the first case whose pattern matches and whose
       guard is truthy, None when no case matches; guards that compile to statements are lifted into
@@ -62,11 +41,10 @@ Print Assumptions C08_refuted_class_keyword.
 Theorem C08_match_correct :
   forall (mangle : string -> string) (value : Type) veval veq is_sing as_seq as_map of_list of_dict isinst margs getattr
          (geval : nat -> bindings value -> bool) (beval : nat -> bindings value -> value) cs ctr v,
-  Forall (fun c => supported mangle (hc_pat c) = true) cs ->
   exec_match value veval veq is_sing as_seq as_map of_list of_dict isinst margs getattr geval beval
     (compile_match mangle cs ctr) v
   = hy_match mangle value veval veq is_sing as_seq as_map of_list of_dict isinst margs getattr geval beval cs v.
-Proof. exact match_correct. Qed.
+Proof. exact match_correct_all. Qed.
 Print Assumptions C08_match_correct.
 
 Theorem C08_match_none :
@@ -78,12 +56,10 @@ Proof. exact match_none. Qed.
 Print Assumptions C08_match_none.
 
 (* non-trivial objects meeting the hypotheses *)
-Example C08_example_supported :
-  supported t_mangle (HAs (HSeq [HSym "x"; HStar "r"; HMap [LStr "k"] [HOr [HLit (LInt 1); HSym "None"]] (Some "m");
-                                 HClass ["C"] [HSym "y"] ["q"] [HKeyword "a-b"]]) "w") = true
-  /\ hwf t_mangle false (HAs (HSeq [HSym "x"; HStar "r"; HMap [LStr "k"] [HOr [HLit (LInt 1); HSym "None"]] (Some "m");
+Example C08_example_wellformed :
+  hwf t_mangle false (HAs (HSeq [HSym "x"; HStar "r"; HMap [LStr "k"] [HOr [HLit (LInt 1); HSym "None"]] (Some "m");
                                     HClass ["C"] [HSym "y"] ["q"] [HKeyword "a-b"]]) "w") = true.
-Proof. split; vm_compute; reflexivity. Qed.
+Proof. vm_compute. reflexivity. Qed.
 Example C08_example_lifted_guards :
   compile_match t_mangle [ {| hc_pat := HSym "x"; hc_guard := Some {| g_id := 7; g_stmts := true |}; hc_body := 0 |};
                            {| hc_pat := HSym "_"; hc_guard := None; hc_body := 1 |} ] 0
